@@ -881,8 +881,13 @@ func c14EzWrapAlways(c *Ctx, rule string) {
 				iff, ok := p.Instrs[len(p.Instrs)-1].(*ssa.If)
 				feasible := true
 				if ok {
-					if cmp, ok := iff.Cond.(*ssa.BinOp); ok && cmp.Op == token.GTR && p.Succs[1] == ph.Block() {
-						if z, ok := constInt(cmp.Y); ok && z == 0 {
+					if cmp, ok := iff.Cond.(*ssa.BinOp); ok {
+						z, isC := constInt(cmp.Y)
+						onFalse, onTrue := p.Succs[1] == ph.Block(), p.Succs[0] == ph.Block()
+						// the edge is taken exactly when the list is empty, however the test is spelled
+						emptyEdge := isC && (onFalse && (cmp.Op == token.GTR && z == 0 || cmp.Op == token.NEQ && z == 0 || cmp.Op == token.GEQ && z == 1) ||
+							onTrue && (cmp.Op == token.EQL && z == 0 || cmp.Op == token.LEQ && z == 0 || cmp.Op == token.LSS && z == 1))
+						if emptyEdge {
 							if l, ok := cmp.X.(*ssa.Call); ok && calleeFullName(l) == "builtin.len" {
 								if els, ok := sliceElems(l.Call.Args[0], 0); ok {
 									for _, el := range els {
